@@ -8,3 +8,7 @@ def run(ctx):
 
 def replay(ctx, path):
     return master_check.replay(ctx, 'C09', path)
+
+
+def selftest(ctx):
+    return master_check.selftest(ctx, 'C09')
